@@ -14,10 +14,10 @@ ID = "C13"
 LEVEL = "exploration"
 RULE = ("case A = batch of generated translatable designs: each is translated by both backends in fresh "
         "subprocesses (PYTHONHASHSEED 0, 1 and a drawn value; quick tier: 0 and a drawn value; identical file paths) and in-process; the SHA-256 of "
-        "every emitted file must coincide. case B = generated naming-focused hierarchy: 2-4 instances of parametrised leaf "
+        "every emitted file must coincide; one batch in three also holds a black-box VerilogPlaceholder with 2-6 library files (v_libs), translated in the fresh processes. case B = generated naming-focused hierarchy: 2-4 instances of parametrised leaf "
         "classes (ints, bools, strs, Bits values, Bits types, None, lists, long lists that trigger hashing; values whose "
         "str() coincide such as 1/'1'/b1(1)) and of factory-made classes that share __name__ but differ in a closure "
-        "value; the emitted text must define every module once, define every instantiated module, use legal unique "
+        "value, or (one case in three) of one class with three defaulted construct() arguments of which each instance supplies another subset, some overridden afterwards with set_param; the emitted text must define every module once, define every instantiated module, use legal unique "
         "identifiers (E2 structural check), and instances that share a module definition must behave like it: the "
         "translated hierarchy executed by E2 must equal the PyMTL simulation on every output (a name collision makes "
         "two different instances share the first definition). non-trivial A = design with >=3 connections/blocks/ports; "
